@@ -419,7 +419,9 @@ def judgeLine (line : String) : String :=
       | state :: res =>
         -- nil vs empty: the decoder builds every slice non-nil, also for a count of 0 (correspondence only: the
         -- property does not distinguish nil from empty)
-        if state.startsWith "intact-nil" then s!"DIFF {cls} decoder-returned-a-nil-slice-{state}"
+        -- (reported as its own OK class, counted in the evidence histogram: 0 lines on the unchanged tree; returning
+        -- nil for an empty member would not break the property, so it must not raise an alarm)
+        if state.startsWith "intact-nil" then (if sameRes res m then "OK decin-nil-slice" else s!"DIFF {cls} model={showRes m} impl={" ".intercalate (res.take 8)}")
         else if state != "intact" then s!"SPEC {cls} Decode-{state}"
         else if sameRes res m then s!"OK {cls}"
         else if res.head? == some "panic" then s!"SPEC {cls} decoder-panicked"
